@@ -597,7 +597,9 @@ class MetaClass(object):
                 referential_attributes[name] = value
             
         # set all named arguments
+        declared_names = dict((name.upper(), name) for name, _ in self.attributes)
         for name, value in kwargs.items():
+            name = declared_names.get(name.upper(), name)
             if name not in self.referential_attributes:
                 setattr(inst, name, value)
             else:
